@@ -260,7 +260,10 @@ def format_as_github_annotation(error: Error | str) -> str:
 
     assert error.filename
 
-    file = Path(error.filename).resolve().relative_to(Path.cwd())
+    file = Path(error.filename).resolve()
+
+    with suppress(ValueError):
+        file = file.relative_to(Path.cwd())
 
     return "::error " + ",".join(
         [
